@@ -914,7 +914,7 @@ static void check_reply(struct client *c, const struct outst *o, const unsigned 
     const struct ctl_proto_attr *a = &m->get_attr_cfm.attr;
     if (!strcmp(o->name, "tls.key")) {
         if (m->type == ctl_proto_type_get_attr_cfm && a->value_len > 0)
-            V("C14/tls-key-disclosed/get-attr-confirmed", "%s: get-attr(tls.key) was confirmed with a %zu-byte value", c->name, a->value_len);
+            V("C14/get-attr/tls.key-confirmed-with-a-value", "%s: get-attr(tls.key) was confirmed with a %zu-byte value (a query for the sensitive attribute may only be rejected)", c->name, a->value_len);
         return;
     }
     if (m->type == ctl_proto_type_get_attr_cfm && a->value_len > CTL_ATTR_VALUE_MAX) {
